@@ -300,7 +300,8 @@ Definition w_demo : world :=
   {| w_maps := [{| m_id := 0; m_listen := 1; m_target := 2; m_socks := true; m_sent := 0; m_recv := 0 |};
                 {| m_id := 1; m_listen := 0; m_target := 2; m_socks := true; m_sent := 0; m_recv := 0 |}];
      w_codes := [{| c_id := 0; c_owner := 2; c_act := 0 |}]; w_doms := [{| d_id := 0; d_owner := 1 |}];
-     w_online := [1; 2; 3]; w_bind := [(1, 1); (2, 2); (3, 3)]; w_nm := 2; w_nc := 1; w_nd := 1 |}.
+     w_online := [1; 2; 3]; w_bind := [(1, 1); (2, 2); (3, 3)]; w_nm := 2; w_nc := 1; w_nd := 1;
+     w_xnode := false; w_remote := [] |}.
 Definition c_demo (t : N) (obj : option N) (tgt : option cid) : cmd :=
   {| k_type := t; k_resp := false; k_obj := obj; k_tgt := tgt; k_dir := 0; k_sent := 1000000; k_recv := 7; k_valid := true |}.
 
@@ -491,7 +492,7 @@ Proof.
       destruct (k_obj c) as [i|]; [|apply Hmk].
       destruct (find_map i (w_maps w)) as [m|] eqn:Fm; [|apply Hmk].
       destruct (map_party_ok PMapListen a m); [|apply Hmk].
-      destruct (memN (m_target m) (w_online w)); [|apply Hmk].
+      destruct (negb (socks_route w (m_target m) =? 0)); [|apply Hmk].
       cbn. repeat split; intros; try contradiction; tauto.
     + (* EDnsForward *)
       match goal with |- context [if ?b then _ else _] => destruct b end; [|apply Hmk].
@@ -585,7 +586,7 @@ Proof.
       destruct (k_obj c) as [i|]; [|apply objects_ok_mk].
       destruct (find_map i (w_maps w)) as [m|]; [|apply objects_ok_mk].
       destruct (map_party_ok (r_party r) a m); [|apply objects_ok_mk].
-      destruct (memN (m_target m) (w_online w)); [|apply objects_ok_mk]. apply objects_ok_same; reflexivity.
+      destruct (negb (socks_route w (m_target m) =? 0)); [|apply objects_ok_mk]. apply objects_ok_same; reflexivity.
     + (* EDnsForward *)
       match goal with |- context [if ?b then _ else _] => destruct b end; [|apply objects_ok_mk].
       apply objects_ok_same; reflexivity.
@@ -682,16 +683,17 @@ Proof.
       destruct (k_obj c) as [i|]; [|apply reach_ok_mk].
       destruct (find_map i (w_maps w)) as [m|] eqn:Fm; [|apply reach_ok_mk].
       destruct (map_party_ok PMapListen a m) eqn:P; [|apply reach_ok_mk].
-      destruct (memN (m_target m) (w_online w)); [|apply reach_ok_mk].
+      destruct (negb (socks_route w (m_target m) =? 0)); [|apply reach_ok_mk].
       cbn [map_party_ok] in P. apply N.eqb_eq in P. destruct (find_map_some _ _ _ Fm) as [Hin _].
       unfold reach_ok; cbn. split; [|repeat split; intros; try contradiction; assumption].
       intros t ty s Hd. apply deliver_in in Hd. destruct Hd as [Heq Hne]. injection Heq as -> -> ->.
       split; [exact Ha|]. split; [exact Hne|]. right. exists m. auto.
     + (* EDnsForward *)
       destruct G as [Hp Ha]. rewrite Hp.
-      match goal with |- context [if negb (?t =? 0) && _ then _ else _] => set (tt := t) end.
-      destruct (negb (tt =? 0) && memN tt (w_online w)) eqn:Eg; [|apply reach_ok_mk].
-      apply andb_prop in Eg. destruct Eg as [Ent _]. apply negb_true_iff in Ent. apply N.eqb_neq in Ent.
+      match goal with |- context [dns_route w ?t (k_type c)] => set (tt := t) end.
+      destruct (negb (dns_route w tt (k_type c) =? 0)) eqn:Eg; [|apply reach_ok_mk].
+      assert (Ent : tt <> 0).
+      { intro Hz. rewrite Hz in Eg. unfold dns_route in Eg. cbn in Eg. discriminate Eg. }
       unfold reach_ok; cbn. split; [|repeat split; intros; try contradiction; assumption].
       intros t ty s Hd. apply deliver_in in Hd. destruct Hd as [Heq Hne]. injection Heq as -> -> ->.
       split; [exact Ha|]. split; [exact Hne|]. right.
@@ -1049,3 +1051,45 @@ Lemma fallthrough_delete_refuted :
   /\ w_maps (res_world (exec_faulty true current_table w_demo (KConn 3) 0 (c_demo 76 (Some 0) None) 0)) = tl (w_maps w_demo)
   /\ exec_faulty false current_table w_demo (KConn 3) 0 (c_demo 76 (Some 0) None) 0 = mk false w_demo.
 Proof. repeat split; vm_compute; reflexivity. Qed.
+
+(* ------------------------------------------------------------------------------------------ *)
+(* the party check precedes every externally visible effect, cross-node relays included       *)
+(* ------------------------------------------------------------------------------------------ *)
+Lemma check_first_no_effects prog : check_first prog = true -> emitted false prog = [].
+Proof.
+  induction prog as [|s prog IH]; cbn [check_first emitted]; intro H; [reflexivity|].
+  destruct s; [now apply IH|reflexivity|discriminate H].
+Qed.
+
+Lemma handler_orders_check_first :
+  check_first socks_prog_local = true /\ check_first socks_prog_remote = true /\ check_first dnsquery_prog_remote = true
+  /\ emitted true socks_prog_remote = [C_RelayTunnelOpen] /\ emitted true dnsquery_prog_remote = [C_RelayDNSQuery].
+Proof. repeat split; reflexivity. Qed.
+
+Lemma relay_first_order_refuted :
+  check_first socks_prog_remote_relay_first = false /\ emitted false socks_prog_remote_relay_first = [C_RelayTunnelOpen].
+Proof. split; reflexivity. Qed.
+
+(* a two-node world: client 2 (target of mapping #0, listen client 1) is connected on another node *)
+Definition w_cluster : world :=
+  {| w_maps := w_maps w_demo; w_codes := []; w_doms := []; w_online := [1; 3]; w_bind := [(1, 1); (3, 3)];
+     w_nm := 2; w_nc := 0; w_nd := 0; w_xnode := true; w_remote := [2] |}.
+
+(* on the executable model: the listen client's request is relayed to the other node; the stranger's, the unauthenticated
+   connection's and the unknown connection's are not — and with the relay in front of the check all of them are *)
+Lemma cluster_relays_only_for_entitled :
+  res_deliv (exec current_table w_cluster (KConn 1) 0 (c_demo 90 (Some 0) None)) = [(2, C_RelayTunnelOpen, 0)]
+  /\ res_deliv (exec current_table w_cluster (KConn 1) 0 (c_demo 121 None (Some 2))) = [(2, C_RelayDNSQuery, 0)]
+  /\ res_deliv (exec current_table w_cluster (KConn 3) 1 (c_demo 90 (Some 0) None)) = []
+  /\ res_deliv (exec current_table w_cluster (KConn 3) 1 (c_demo 121 None (Some 2))) = []
+  /\ res_deliv (exec current_table w_cluster KPending 1 (c_demo 90 (Some 0) None)) = []
+  /\ res_deliv (exec current_table w_cluster KUnknown 1 (c_demo 90 (Some 1) None)) = []
+  /\ res_deliv (socks_relay_first w_cluster (KConn 3) (c_demo 90 (Some 0) None)) = [(2, C_RelayTunnelOpen, 0)]
+  /\ res_deliv (socks_relay_first w_cluster KUnknown (c_demo 90 (Some 0) None)) = [(2, C_RelayTunnelOpen, 0)]
+  /\ ~ reach_ok 3 w_cluster (socks_relay_first w_cluster (KConn 3) (c_demo 90 (Some 0) None)).
+Proof.
+  repeat split; try (vm_compute; reflexivity).
+  intros [H _]. specialize (H 2 C_RelayTunnelOpen 0). vm_compute in H.
+  destruct (H (or_introl eq_refl)) as [_ [_ [[E _]|[m [Hin [Hl _]]]]]]; [discriminate E|].
+  destruct Hin as [<-|[<-|[]]]; discriminate Hl.
+Qed.
